@@ -51,6 +51,13 @@ def cases(tier, seed):
     if en & int(mujoco.mjtEnableBit.mjENBL_SLEEP):
       sc["override"] = {"solvers": ("Newton",)}
     out.append({"id": f"gen{seed}_{i}", "mode": "debug", "scene": sc, "seed": seed * 100000 + i, "caps": capclasses[i % 5], "nworld": 1 + i % 3, "extreme": i % 4 == 3, "weight": 1})
+  # sleeping on the repository's tendon / equality / actuator models (wake kernels: tendon limits with wrap geoms,
+  # equalities, site transmissions)
+  sleepers = ["tendon/wrap.xml", "tendon/tendon_limit.xml", "tendon/pulley_wrap.xml", "tendon/site_fixed.xml", "constraints.xml", "actuation/site.xml", "humanoid/humanoid.xml", "collision.xml"]
+  for k, p in enumerate(sleepers if tier == "quick" else sleepers * 3):
+    out.append(
+      {"id": f"sleeprepo{seed}_{k}", "mode": "debug", "scene": {"kind": "repo", "path": p, "opt": {"enable": int(mujoco.mjtEnableBit.mjENBL_SLEEP), "solver": "Newton"}}, "seed": seed * 1000 + 300 + k, "caps": capclasses[k % 5], "nworld": 1 + k % 2, "extreme": k % 3 == 2, "weight": 2}
+    )
   # argument validation probes (release build is enough, but keep one mode per check)
   out.append({"id": f"args{seed}", "mode": "debug", "scene": {"kind": "repo", "path": "pendula.xml", "opt": {}}, "seed": seed, "caps": "args", "nworld": 2, "weight": 1})
   return out
